@@ -92,6 +92,23 @@ func condReason(conds []v1beta1.RolloutCondition, t v1beta1.RolloutConditionType
 // Project computes the abstract state the TLA+ specification talks about. It is the only place
 // where Kubernetes objects become abstract state; every field cites the object field it is taken from.
 func (w *World) Project() map[string]interface{} {
+	if w.Peer == nil {
+		return w.projectOne()
+	}
+	out := map[string]interface{}{"pair": true}
+	for i, x := range []*World{w, w.Peer} {
+		m := x.projectOne()
+		used := map[string]interface{}{}
+		for k, v := range x.Ghost.Used {
+			used[k] = v
+		}
+		m["used"] = used
+		out[string("ab"[i])] = m
+	}
+	return out
+}
+
+func (w *World) projectOne() map[string]interface{} {
 	out := map[string]interface{}{}
 	ro := w.getRollout()
 	steps := []v1beta1.CanaryStep{}
@@ -206,7 +223,7 @@ func (w *World) Project() map[string]interface{} {
 func (w *World) projectBR(ro *v1beta1.Rollout) map[string]interface{} {
 	br := &v1beta1.BatchRelease{}
 	m := map[string]interface{}{}
-	if !w.S.Load(NS, RolloutName, br) {
+	if !w.S.Load(w.NS, RolloutName, br) {
 		m["exists"] = false
 		for _, f := range []string{"deleting", "finalizer", "planOk", "hashOk", "obsGenOk", "rollbackAnno"} {
 			m[f] = false
@@ -290,7 +307,7 @@ func (w *World) projectNet() map[string]interface{} {
 	m["provGateway"] = w.hasProvider("gateway")
 	m["noCanarySvc"] = w.Cfg.NoCanarySvc
 	svc := &corev1.Service{}
-	if w.S.Load(NS, SvcName, svc) {
+	if w.S.Load(w.NS, SvcName, svc) {
 		m["hasSvc"] = true
 		m["stableSel"] = RevOf(svc.Spec.Selector["pod-template-hash"] + svc.Spec.Selector["controller-revision-hash"]) // Service.spec.selector[revision key]
 		m["svcSelKeys"] = len(svc.Spec.Selector)
@@ -298,13 +315,13 @@ func (w *World) projectNet() map[string]interface{} {
 		m["svcSelKeys"] = 0
 	}
 	csvc := &corev1.Service{}
-	if w.S.Load(NS, SvcName+"-canary", csvc) {
+	if w.S.Load(w.NS, SvcName+"-canary", csvc) {
 		m["canarySvc"] = true
 		m["canarySel"] = RevOf(csvc.Spec.Selector["pod-template-hash"] + csvc.Spec.Selector["controller-revision-hash"])
 		m["canaryOwned"] = len(csvc.OwnerReferences) > 0
 	}
 	ing := &netv1.Ingress{}
-	if w.S.Load(NS, SvcName+"-canary", ing) && ing.DeletionTimestamp.IsZero() {
+	if w.S.Load(w.NS, SvcName+"-canary", ing) && ing.DeletionTimestamp.IsZero() {
 		m["ing"] = true
 		wt, match := ingressShare(ing.Annotations)
 		m["ingWeight"], m["ingMatch"] = wt, match
@@ -324,7 +341,7 @@ func (w *World) projectNet() map[string]interface{} {
 		m["ingPaths"], m["ingBackendOk"] = paths, ok
 	}
 	route := &gatewayv1beta1.HTTPRoute{}
-	if w.S.Load(NS, SvcName, route) {
+	if w.S.Load(w.NS, SvcName, route) {
 		m["route"] = true
 		m["rtRules"] = len(route.Spec.Rules)
 		gen := 0
@@ -386,7 +403,16 @@ func ingressShare(a map[string]string) (int, string) {
 func (w *World) projectMem() map[string]interface{} {
 	g := grace.DumpForVerif()
 	gf, gold := []string{}, []string{}
-	for _, m := range g {
+	other := w.Peer
+	if w.parent != nil {
+		other = w.parent
+	}
+	for k, m := range g {
+		// with a second scenario in the cluster, entries under the OTHER scenario's keys are not this one's;
+		// entries under keys neither scenario owns are shown to both (a keying defect then shows as drift)
+		if other != nil && other.own[k] && !w.own[k] {
+			continue
+		}
 		for a, t := range m {
 			if fresh(t) {
 				gf = append(gf, a)
@@ -405,15 +431,15 @@ func (w *World) projectMem() map[string]interface{} {
 func (w *World) userOwned() map[string]interface{} {
 	m := map[string]interface{}{}
 	svc := &corev1.Service{}
-	if w.S.Load(NS, SvcName, svc) {
+	if w.S.Load(w.NS, SvcName, svc) {
 		m["svcSelector"] = svc.Spec.Selector
 	}
 	ing := &netv1.Ingress{}
-	if w.S.Load(NS, SvcName, ing) {
+	if w.S.Load(w.NS, SvcName, ing) {
 		m["ingress"] = map[string]interface{}{"spec": ing.Spec, "annotations": ing.Annotations}
 	}
 	route := &gatewayv1beta1.HTTPRoute{}
-	if w.S.Load(NS, SvcName, route) {
+	if w.S.Load(w.NS, SvcName, route) {
 		m["route"] = route.Spec
 	}
 	return m
